@@ -171,6 +171,8 @@ TARGETED_PROGS = [
     'x = (a\n     and  # why\n                          b\n     and c)\ny = (p or  # cp\n     q or  # cq\n     r)\n',
     'z = (a\n     <  # lt\n            b\n     <= c)\nw = [\n    e1,  # c1\n    e2,  # c2\n    e3  # c3\n]\n',
     'match v:\n    case (a  # ca\n          | b  # cb\n          | c  # cc\n          ): pass\n',
+    # statements joined by a line continuation and a ';' on the next physical line (recorded finding of the statement slice engine for trailing-trivia kinds beyond the line)
+    'if x:\n    a \\\n  ;\n    b\nwhile y:\n    c; \\\n    d\n',
     # sequences inside replacement fields of f-strings: the self-documenting text and the "{{" guard must be maintained by cuts as by deletes
     "x = f'{[a, b, c]=}'\ny = f'{a, {b}, c}'\nz = f'{ {k: v, l: w} }'\nw = f'{[p, q] = !r:>{n}}'\n",
 ]
@@ -191,8 +193,19 @@ def targeted_cases():
                 if isinstance(v, list) and v and (fl == '_all' or isinstance(v[0], ast.AST)):
                     for i in range(len(v)):
                         for j in range(i + 1, len(v) + 1):
-                            for opts in ({}, {'trivia': ('block', 'line+1')}, {'trivia': (False, 'block+2')}):
+                            for opts in ({}, {'trivia': ('block', 'line+1')}, {'trivia': (False, 'block+2')}, {'trivia': (False, 'all')}, {'trivia': ('all', 'all+1')}):
                                 yield {'src': src, 'path': probe.child_path(h), 'field': fl, 'i': i, 'j': j, 'opts': dict(opts)}
+
+
+def targeted_copy_cases():
+    """copy() of every statement of the targeted programs under the explicit trailing-trivia options"""
+    import fst
+    for src in TARGETED_PROGS:
+        probe = fst.FST(src, 'exec')
+        for h in probe.walk(True):
+            if isinstance(h.a, ast.stmt):
+                for opts in ({'trivia': (False, 'all')}, {'trivia': ('block', 'all')}, {'trivia': (False, 'block')}, {'trivia': ('all', 'line+2')}):
+                    yield {'src': src, 'path': probe.child_path(h), 'kind': 'copy', 'opts': dict(opts)}
 
 
 TARGETED_SEQ_PROGS = ['del (a), (b), (c)\n', 'x = (a), (b), (c)\n', 'import a, b.c as d, e\n', 'from m import (a, b as c, d)\n', 'def g():\n    global a, b, c\n', 'with (a), (b) as (c), (d): pass\n',
@@ -248,7 +261,7 @@ def stage_oracle(ctx: Ctx, progs, tracer):
     import fst
     rng = ctx.rng
     refusals = collections.Counter()
-    forced = list(targeted_cases()) + list(targeted_seq_cases())
+    forced = list(targeted_cases()) + list(targeted_seq_cases()) + list(targeted_copy_cases())
     for it in range(len(forced) + ctx.scale(500, 9000)):
         fc = forced[it] if it < len(forced) else None
         src = fc['src'] if fc else rng.choice(progs)
@@ -261,7 +274,7 @@ def stage_oracle(ctx: Ctx, progs, tracer):
         opts = {}
         if fc:
             f = root.child_from_path(fc['path'])
-            kind = 'get_slice'
+            kind = fc.get('kind', 'get_slice')
             opts = dict(fc['opts'])
         elif rng.random() < 0.45:
             opts['trivia'] = rng.choice([False, True, 'all', 'block', 'line', (False, False), ('all', 'line'), ('block', 'all'), (True, 'block+1'), ('all+', True)])
@@ -346,7 +359,15 @@ def stage_oracle(ctx: Ctx, progs, tracer):
                         holder_bad = [f'holder location {tuple(piece.loc)} does not span its source (0, 0, {len(pl) - 1}, {len(pl[-1])})']
             d = holder_bad
         if d and opts.get('pars') is not False:
-            ctx.violation(f'piece-not-standalone|{kind}|{type(piece.a).__name__}', 'the returned tree does not parse on its own to itself', {**rec, 'diffs': d})
+            sig = f'piece-not-standalone|{kind}|{type(piece.a).__name__}'
+            tv_ = opts.get('trivia')
+            trail_ = tv_[-1] if isinstance(tv_, tuple) and tv_ else tv_
+            if isinstance(piece.a, (ast.stmt, ast.Module)) and isinstance(trail_, str) and piece.src.rstrip(' ').endswith('\\'):
+                from lib.edits import stmt_before_continuation_semicolon
+                last_ = expect[-1] if expect else None
+                if last_ is not None and stmt_before_continuation_semicolon(src, last_):
+                    sig = 'stmt-copy-before-continuation-semicolon-with-trailing-trivia'
+            ctx.violation(sig, 'the returned tree does not parse on its own to itself', {**rec, 'diffs': d})
             continue
         # (3) structure equals the original sub-tree / elements
         if kind in ('copy', 'get_one') and expect and len(expect) == 1 and opts.get('norm') is None:
